@@ -299,37 +299,28 @@ def rule_r5(ck, prog, rule='C18.R5'):
 
 
 def rule_r2_disabled(ck, prog, rule='C18.R2'):
-    """OTEL_SDK_DISABLED is a boolean setting: it is read through the (case-insensitive) boolean reader and its value returned"""
+    """OTEL_SDK_DISABLED is a boolean setting: it is read through the (case-insensitive) boolean reader, and GetSdkDisabled is true
+    exactly when the variable exists and the reader delivered true (decision table over the reader's two results)"""
+    from ..symb import returns_under_pins, T, F
     f = prog.function('sdk::common::GetSdkDisabled')
     g = Graph(prog, f, inline=None, sync_lambdas=False)
-    rd = reaching_defs(g)
     reads = [p for p in g.points if p.n is not None and p.n['k'] == 'call' and strip_targs(p.n.get('c', '')).endswith('common::GetBoolEnvironmentVariable')]
-    ok = len(reads) == 1
+    others = [n for n in f.nodes if n['k'] == 'call' and 'EnvironmentVariable' in strip_targs(n.get('c', '')) and not strip_targs(n.get('c', '')).endswith('GetBoolEnvironmentVariable')]
+    ok = len(reads) == 1 and not others
     why = 'GetSdkDisabled does not read the variable through GetBoolEnvironmentVariable: the value is no longer matched case-insensitively ("TRUE", "True" keep the SDK enabled)'
     if ok:
-        out = strip_casts(f, reads[0].n['args'][1])
-        for r in g.returns():
-            e = strip_casts(f, r.n['e'])
-            if e['k'] == 'lit' and not e.get('v'):
-                continue
-            if e['k'] == 'ref' and e.get('id') == out.get('id'):
-                # the value returned is the reader's out-parameter or the literal false assigned on the "unset" edge
-                for (v, d) in rd.get(r.id, ()):
-                    if v != out['id']:
-                        continue
-                    dn = g.points[d].n
-                    if dn is reads[0].n or dn['k'] == 'declstmt':
-                        continue
-                    val = [vx for (vv, st, vx) in defs_in_node(f, dn) if vv == out['id']]
-                    if val and val[0] is not None and strip_casts(f, val[0])['k'] == 'lit' and not strip_casts(f, val[0]).get('v'):
-                        continue
-                    ok = False
-                    why = 'the value GetSdkDisabled returns is re-computed after the boolean reader delivered it'
-                continue
-            ok = False
-            why = 'GetSdkDisabled returns something other than the boolean reader\'s value'
+        call = reads[0].n
+        out = strip_casts(f, call['args'][1])
+        table = {}
+        for exists in (T, F):
+            for value in (T, F):
+                table[(exists, value)] = returns_under_pins(g, {call['i']: exists}, assign_at={call['i']: {out.get('id'): value}})
+        want = {(T, T): {T}, (T, F): {F}, (F, T): {F}, (F, F): {F}}
+        ok = out['k'] == 'ref' and table == want
+        why = 'GetSdkDisabled is not "the variable exists and the boolean reader delivered true": (exists, value) -> %s' % \
+            ', '.join('%s%s->%s' % ('T' if e else 'F', 'T' if v else 'F', sorted(str(x) for x in r)) for (e, v), r in sorted(table.items(), key=str))
     ck.verdict(ok, rule, f, 'sdk-disabled-through-bool-reader', reads[0].n if reads else None,
-               'OTEL_SDK_DISABLED is read by GetBoolEnvironmentVariable and that value (false when unset) is returned' if ok else why)
+               'OTEL_SDK_DISABLED is read by GetBoolEnvironmentVariable; the result is true exactly for (exists, true)' if ok else why)
 
 
 def run(ck, prog):
